@@ -683,6 +683,7 @@ def snapshot_tokens(conn, epoch, dcid):
 
 
 _CACHE = {}
+FR_TLS = collections.Counter()      # how often the frames tie reached the TLS message layer
 
 
 def _key(case):
@@ -744,6 +745,9 @@ def frames_observe(case):
     if pre is not None and len(snap) > 60000:
         pre = None          # a huge reassembly buffer (far-ahead CRYPTO data in a prefix packet): not run through the model
     if pre is not None:
+        FR_TLS["cases_with_handle_message"] += 1 if rec.calls else 0
+        FR_TLS["handle_message_calls"] += len(rec.calls)
+        FR_TLS["dispatched_messages"] += sum(len(r) for r in rec.calls)
         orcs = [len(rec.calls)]
         for records in rec.calls:
             orcs += c05_tlsmsg.orc_tokens(records)
@@ -1363,6 +1367,28 @@ def gen_frame_cases(rng, n):
                 fr.reverse()
             c["frames"] = [f.hex() for f in fr]
         cases.append(c)
+    # CRYPTO in the Handshake epoch while the handshake is in progress: grammar-built TLS messages reach the message layer
+    # below the frame handler (client: waiting for EncryptedExtensions; server: waiting for the client's Finished)
+    for i in range(max(60, n // 12)):
+        side = rng.choice(["client", "server"])
+        types = [8, 8, 8, 11, 13, 15, 20, 4, 2] if side == "client" else [20, 20, 11, 15, 1, 4, 8]
+        msgs = b""
+        for _ in range(rng.choice([1, 1, 2, 3])):
+            t = rng.choice(types)
+            msgs += c05_tlsmsg.hello_grammar(rng, t == 1) if t in (1, 2) else c05_tlsmsg.other_grammar(rng, t)
+        if rng.random() < 0.15:
+            msgs = c05_tlsmsg.mutate(rng, msgs)
+        msgs = msgs[:1000]
+        cut = rng.randrange(len(msgs) + 1)
+        fr = [b"\x06" + varint(0) + varint(cut) + msgs[:cut]]
+        if rng.random() < 0.6:
+            fr.append(b"\x06" + varint(cut) + varint(len(msgs) - cut) + msgs[cut:])
+        if rng.random() < 0.2:
+            fr.reverse()
+        if rng.random() < 0.3:
+            fr.append(g.frame(rng.choice([0x00, 0x01, 0x02, 0x1c])))
+        cases.append({"spec": spec(side, "handshake", 100 + rng.randrange(8)), "ops": [], "epoch": "handshake",
+                      "frames": [f.hex() for f in fr], "opts": {}})
     return cases
 
 
@@ -1879,13 +1905,13 @@ def run(ctx):
                     nontrivial=lambda c, out: True)
     cl.oracle = once(oracle_close)
     cl.run(corr.load_corpus("C05", "close"), "corpus")
-    cl.run(gen_close_cases(rng, ctx.n(400, 6000)))
+    cl.run(gen_close_cases(rng, ctx.n(250, 6000)))
     _CACHE.clear()
     dg = corr.Suite(ctx, "dgram", "exec_dgram", lambda c: dgram_observe(c)[0], lambda c: dgram_observe(c)[1], None, None, None,
                     nontrivial=lambda c, out: len(out) > 8)
     dg.oracle = once(oracle_dgram)
     dg.run(corr.load_corpus("C05", "dgram"), "corpus")
-    dcases = gen_dgram_cases(rng, ctx.n(900, 12000))
+    dcases = gen_dgram_cases(rng, ctx.n(600, 12000))
     for i in range(0, len(dcases), 300):
         dg.run(dcases[i:i + 300])
         _CACHE.clear()
@@ -1931,6 +1957,7 @@ def run(ctx):
     #    client close (or by the application's own close()): the close branch of datagrams_to_send (finding R1)
     run_retry(ctx, rng, stats, report)
 
+    stats["frames_tls_layer"] = dict(FR_TLS)
     extra = {"volume": {k: (dict(v) if isinstance(v, collections.Counter) else v) for k, v in stats.items()},
              "packets_total": stats["datagrams"] + stats["protected_packets"] + stats["tls_messages"]}
     cov = corr.merge_coverage(
